@@ -262,12 +262,11 @@ def queryOf (st : St) (rd : Read) (slice : Option (TPat Ã— GName Ã— Option Nat Ã
     match encPat hook p with
     | none => none
     | some e =>
-      -- ORDER BY is injected when any of the LIMIT / OFFSET / "ORDER BY" attributes is set: the first unbound
-      -- position, else (fully bound) the variable given in the "ORDER BY" attribute, else nothing
-      let ord := if lim.isSome || off.isSome || ob.isSome then
-          (match firstUnbound e with | some x => some x | none => ob.join) else none
+      -- the ORDER BY / LIMIT / OFFSET injection is the model function `sliceOrderS` / `wSliceQuery` of Text.lean
+      let attrs : SliceAttrs := âŸ¨lim, off, obâŸ©
+      let ord := sliceOrderS (e.1.isNone, e.2.1.isNone, e.2.2.isNone) attrs
       some (s!"Q{showG g}:T:{showP e}:{showPos ord}:{showON lim}:{showON off}",
-            (patT st e).bind (fun pp => wTriplesQuery pp ord lim off))
+            (patT st e).bind (fun pp => wSliceQuery pp attrs))
   | none =>
   match rd with
   | .triples p g | .contains p g =>
